@@ -64,6 +64,8 @@ func main() {
 	switch os.Args[1] {
 	case "gen":
 		genRuns(w, atoi64(a[0]), atoi(a[1]), atoi(a[2]), stats)
+	case "shift":
+		shiftRuns(w, atoi64(a[0]), atoi(a[1]), atoi(a[2]), stats)
 	case "scen":
 		scenarios(w)
 	case "fork":
